@@ -72,7 +72,12 @@ def finish(ctx, specs, rule, bounds, assumptions=()):
     ctx.meta.update(
         rule=rule,
         exhaustive=capped == 0 and counters.get("diverged-prefixes", 0) == 0,
-        bounds=dict(bounds, scenarios=len(specs)),
+        bounds=dict(bounds, scenarios=len(specs),
+                    deviations="preemption at a scheduling point, non-default wake-up order, "
+                               "trio batch order reversed, environment event (SIGINT) now"
+                               + ("" if ctx.quick else
+                                  ", TIME (a timer due within 0.3 virtual seconds fires before "
+                                  "the running thread continues)")),
         caps_hit=(["%d scenarios hit the per-scenario execution budget" % capped] if capped else [])
         + (["%d choice prefixes diverged on replay and were not explored"
             % counters["diverged-prefixes"]] if counters.get("diverged-prefixes") else []),
